@@ -446,11 +446,11 @@ def machine_emit(pid, scn):
 PROPERTIES["C17"] = {
     "run": c17_run, "level": "exploration",
     "text": "the TLA+ specification cannot state 'no UB'; it supplies the set of valid histories and inputs (exactly the "
-            "quantifier of C01-C16) and the expected results; those workloads are executed in g++ -O0 with libstdc++ debug mode, "
-            "clang -O2, clang -O1 with ASan+UBSan (and g++ -O2 in the thorough tier; g++ -O1 is the build of every other check) and every "
-            "configuration must reproduce the specification's results with no diagnostic",
+            "quantifier of C01-C16): TLC's transition graphs and enumerated cases are saved and executed by g++ -O1, g++ -O0 with "
+            "libstdc++ debug mode, clang -O2 and clang -O1 with ASan+UBSan (and g++ -O2 in the thorough tier); a crash, sanitizer "
+            "report or debug assertion in any build, or any difference between the builds' results, is a violation",
     "note": "exploration with instrumented-execution oracles; MSan not available; coverage = the spec-generated workloads listed in the evidence",
-    "technique": "spec-generated valid workloads replayed under sanitizers and debug-mode standard library; cross-configuration agreement via the specification's expected results",
+    "technique": "spec-generated valid workloads (TLC transition graphs and enumerated cases) replayed under sanitizers and debug-mode standard library; cross-build result digests",
 }
 
 def c18_run(pid, tier, seed):
